@@ -268,6 +268,13 @@ def main():
     out.append("]\n")
     out.append(f"def grammar : Grammar := {{ rules := rules, whitespace := {index['WHITESPACE']}, comment := {index['COMMENT']} }}\n")
     out.append(f"def programRule : Nat := {index['program']}\n")
+    out.append("/-- The well-formedness certificate of this grammar, its rank and size bounds (`Tx3Proofs.C12Fuel`). -/")
+    out.append("def cert : Cert := computeCert grammar")
+    out.append("def rankBound : Nat := Peg.rankBound cert")
+    out.append("def sizeBound : Nat := Peg.sizeBound grammar\n")
+    out.append("/-- `Tx3Grammar::parse(rule, input)` with the budget that `C12_never_out_of_fuel` proves sufficient. -/")
+    out.append("def parseTx3 (rule : Nat) (input : String) : Res :=")
+    out.append("  parseF grammar (fuelNeeded rankBound sizeBound input.toList.length) rule input\n")
     out.append("end Tx3.Gen\n")
     text = "\n".join(out)
     try:
